@@ -12,7 +12,8 @@ TRUSTED11 = [
     "validated only boundedly on CPython (harness/dictjson.py)",
     "the dictionary exporter/importer handed in (or the default DictExporter()/DictImporter()) is used through export()/import_() only "
     "(effect-log model: which helper, with which state, which json function with which data and keyword options)",
-    "the round trip is the composition of these delegation equalities with C10 and the json contract (meta-argument)",
+    "the round trip is the composition of these delegation equalities with the DictExporter/DictImporter contracts (C10, discharged in this "
+    "run as well) and the json contract (meta-argument)",
 ]
 
 
@@ -38,8 +39,12 @@ def collect11(res):
     reg, specs = jsonio.build()
     seq_props.collect_specs(res, specs)
     init_obligations(res)
+    # the JSON classes delegate to the dictionary exporter/importer: their contracts (C10, incl. the default node class's
+    # constructor) are part of what C11 rests on and are discharged here as well
+    from . import dict_props
+    dict_props.collect(res)
     for o in res.obligations:
-        o.props = set(o.props) | {"C11"}
+        o.props = (set(o.props) - {"C10"}) | {"C11"}
 
 
 def bounded(pid, tier, what):
